@@ -36,6 +36,47 @@ def msg_bytes(rng, n):
     return bytes(rng.choice(b"abcdefghijklmnopqrstuvwxyzABCDEFGHIJKLMNOPQRSTUVWXYZ0123456789_/.-") for _ in range(n))
 
 
+def api_scenarios(R):
+    """Failing and succeeding public calls on good, truncated and corrupted dumps; every observation line of
+    harness/s_fmt.c carries the monitor verdict (` C16:undocumented-status`, ` C16:empty-message`, ` C16:stale-message`)."""
+    import os
+    rng = R.rng
+    paths = []
+    p = R.path("c16-a.dump"); dumpgen.write_diskdump(p, [0, 1, 2, 5, 6], max_mapnr=16, ram=range(10), methods={1: "zlib", 2: "lzo", 5: "zstd"}); paths.append(p)
+    p = R.path("c16-b.elf"); dumpgen.write_elf(p, [dict(pfn=1, npages=2, voff=0xffff880000000000), dict(pfn=6, npages=3, filepages=1, voff=0xffff880000000000)]); paths.append(p)
+    good = [open(x, "rb").read() for x in paths]
+    # truncations (corrupted fields are the hostile-input stream of C03, not this one)
+    variants = []
+    for gi, g in enumerate(good):
+        for cut in (0, 7, 64, 300):
+            q = R.path("c16-t%d-%d" % (gi, cut)); open(q, "wb").write(g[:cut]); variants.append(q)
+    lines = []
+    for q in paths + variants:
+        lines.append("open 1 %s" % q)
+        for a in ("file.format", "arch.name", "no.such.key", "linux.uts.release", "max_pfn", "cache.size"):
+            lines.append("attr %s" % a)
+        lines += ["setnum cache.size 4", "setnum arch.name 3", "setnum no.such.key 1"]
+        for as_ in (0, 1, 2):
+            for addr in (0, 0x1000, 0x2000, 0x3000, 0x5000, 0x7000, 0xffff880000001000, (1 << 64) - 4096):
+                lines.append("probe %d %d 4096" % (as_, addr))
+        lines += (["bits file 0 40", "fset mem 3", "fclr file 0"] if q in paths else []) + ["read 1 4090 20", "attr file.format"]
+    exe = R.build_harness("s_fmt", ["s_fmt.c"])
+    rc, out, err = R.run_harness(exe, stdin_text="\n".join(lines) + "\n")
+    obs = kdf.obs(out)
+    fail = None
+    for i, o in enumerate(obs):
+        if " C16:" in o or "UNDOCUMENTED" in o:
+            # find the command that produced observation i
+            fail = ("public call answered '%s'" % o[:200], "\n".join(lines[max(0, i - 3):i + 1]))
+            break
+    if fail is None and rc != 0:
+        k = min(len(obs), len(lines) - 1)
+        errl = [l for l in err.strip().split("\n") if "WARNING: AddressSanitizer failed to allocate" not in l]
+        fail = ("API scenario harness stopped (rc=%s) near '%s': %s" % (rc, lines[k][:120], " | ".join(errl[:6])[:700]),
+                "\n".join(lines[max(0, k - 40):k + 1]))
+    return lines, fail, len(obs)
+
+
 def run(R):
     facts, changed = R.extract()
     proof = R.prove(["Kdf.Props.C16"], THEOREMS) if THEOREMS else dict(obligations=0, discharged=0, broken=[], axioms={}, log="")
@@ -101,6 +142,10 @@ def run(R):
         if not ok and fail is None:
             fail = (i, "error string after '%s' (inline buffer %d bytes, previous string %r) is %r; expected %s" % (lines[i][:60], bs, old[:60] if m[1] != "add" else None, cur[:120], want))
             break
+    # ---- API-level monitors: documented status, message iff failure, no stale message after success
+    api_lines, api_fail, api_n = api_scenarios(R)
+    if api_fail and not fail:
+        R.violation(api_fail[0], dict(stream="fmt", input=api_fail[1], broken_theorems=proof["broken"]))
     mism = kdf.diff_streams(impl, model)
     def ctx(i):
         j = i
@@ -122,6 +167,6 @@ def run(R):
                evaluations=len(lines), distinct_nontrivial=len({(m[1], len(m[2]) if m[1] == "add" else 0, m[3] if m[1] == "add" else 0, s) for m in meta for s in [seqs[m[0]][0]]}),
                rule="err_add sequences at the three real inline sizes: every message length 0..2*bufsz+3 as first message and a grid of second messages, "
                     "each with realloc succeeding and failing; random chains of up to 12 prepends/clears; non-trivial = distinct (bufsz, op, length, alloc outcome)",
-               traces_validated_against_impl=len(impl), correspondence_first_diff=mism, case_kinds=kinds,
+               traces_validated_against_impl=len(impl), api_monitor_observations=api_n, correspondence_first_diff=mism, case_kinds=kinds,
                samples=[dict(input=ctx(i)) for i in (1, len(lines) // 2)])
     return "proof", cov, ["the formatted message contains no NUL", "status/message monitors of the other streams are attributed to C16 there"]
